@@ -58,6 +58,8 @@ def cases(tier):
         for p in gen("quick"):
             if p["domain"] in seen:
                 continue
+            if "fine" in p["tags"]:
+                continue  # constants with > 4 decimals are not representable at the exporter's precision (outside the quantifier)
             if tier == "quick" and ("pre" in p["tags"] or p["tags"][0] in ("and3", "e3", "when+when")
                                     or "when+when" in p["tags"]):
                 continue
